@@ -8,6 +8,8 @@
 #define CNL_IMPL_OVERFLOW_GENERIC_H
 
 #include "../custom_operator/definition.h"
+#include "../num_traits/width.h"
+#include "../numbers/signedness.h"
 #include "../polarity.h"
 #include "builtin_overflow.h"
 #include "is_overflow.h"
@@ -40,6 +42,17 @@ namespace cnl {
 
         template<tag Tag1, tag Tag2>
         using common_overflow_tag_t = typename common_overflow_tag<Tag1, Tag2>::type;
+
+        // result of shifting a number right by at least as many bits as it has
+        template<typename Result, typename Lhs>
+        [[nodiscard]] constexpr auto shift_right_all(Lhs const& lhs) -> Result
+        {
+            if constexpr (numbers::signedness_v<Lhs>) {
+                return (lhs < Lhs{0}) ? static_cast<Result>(-1) : Result{};
+            } else {
+                return Result{};
+            }
+        }
     }
 
     /// \cond
@@ -138,6 +151,9 @@ namespace cnl {
                                  _impl::polarity::negative>{}(lhs, rhs)
                  // zero shifted by any amount is zero; do not perform an over-wide shift
                  : !lhs  ? _impl::op_result<Operator, Lhs, Rhs>{}
+                 // a right shift by the width of the number or more leaves only copies of its sign
+                 : (std::is_same_v<Operator, _impl::shift_right_op> && rhs >= _impl::width<Lhs>)
+                         ? _impl::shift_right_all<_impl::op_result<Operator, Lhs, Rhs>>(lhs)
                          : Operator{}(lhs, rhs);
         }
     };
